@@ -278,7 +278,7 @@ func (x *exec) memLab(seed int) {
 			if r.Chance(1, 12) {
 				w = r.Range(33, 200) // one value wider than 32 bytes
 			}
-			a := base + uint64(r.Intn(48))
+			a := base + uint64(r.Intn(64))
 			if a+uint64(w) <= a {
 				continue // would reach the end of the address space: not representable
 			}
